@@ -7,11 +7,11 @@ PATCH=$(readlink -f "$1"); shift
 S=/tmp/mut.$$
 mkdir -p $S
 git -C /repo worktree add -q --detach $S/repo HEAD || exit 2
-rsync -a --exclude .git --exclude out --exclude bin --exclude evidence /verif/ $S/verif/
+if ! rsync -a --exclude .git --exclude out --exclude bin --exclude evidence /verif/ $S/verif/ || [ ! -x $S/verif/check ]; then echo "COPY OF /verif FAILED"; git -C /repo worktree remove --force $S/repo; rm -rf $S; exit 2; fi
 if ! git -C $S/repo apply "$PATCH"; then echo "PATCH DOES NOT APPLY"; git -C /repo worktree remove --force $S/repo; rm -rf $S; exit 2; fi
 for P in "$@"; do
   echo "== $P on mutant $(basename $PATCH)"
-  (cd $S/verif && VERIF_REPO=$S/repo ./check $P --tier ${TIER:-quick} --seed ${SEED:-1} 2>&1 | grep -v "^  finding" | cut -c1-300 | head -12; echo "exit=${PIPESTATUS[0]}")
+  (cd $S/verif || exit 2; VERIF_REPO=$S/repo ./check $P --tier ${TIER:-quick} --seed ${SEED:-1} 2>&1 | grep -v "^  finding" | cut -c1-300 | head -12; echo "exit=${PIPESTATUS[0]}")
 done
 git -C /repo worktree remove --force $S/repo
 rm -rf $S
